@@ -117,6 +117,7 @@ type c45Gen struct {
 	pool  [][]byte // blobs reused inside and across files
 	utf8  bool
 	nSpec int
+	big   int // size of the occasional large blob
 }
 
 var c45Names = []string{"a", "b.txt", "c d", "Ünï", "-dash", "sub", "x", "y", "zz", "long-name-" + strings.Repeat("n", 90), "q\"uote", "tab\tx", "e", "f", "g"}
@@ -126,9 +127,11 @@ func (g *c45Gen) blob() []byte {
 	if len(g.pool) > 0 && g.rng.Chance(1, 3) {
 		return kit.Pick(g.rng, g.pool)
 	}
-	n := kit.Pick(g.rng, []int{1, 2, 100, 100, 4096, 4096, 70000})
-	if g.rng.Chance(1, 12) {
-		n = 300000
+	// blob sizes are kept small: under the race detector every byte moved costs microseconds on this
+	// machine, and the property is about order and structure, not volume
+	n := kit.Pick(g.rng, []int{1, 2, 100, 100, 1000, 4096})
+	if g.rng.Chance(1, 20) {
+		n = g.big
 	}
 	b := g.rng.Bytes(n)
 	g.pool = append(g.pool, b)
@@ -329,7 +332,7 @@ func TestVerifC45(t *testing.T) {
 	rec := kit.Start(t, "C45", "dump")
 	defer rec.Finish()
 	env := rec.Env
-	n := env.Pick(150, 5000)
+	n := env.Pick(120, 400)
 	// one repository per shard: creating a repository (zstd encoder tables) is very expensive under the
 	// race detector; all trees of the shard go into it (blobs are shared between cases, as in real use)
 	be := kit.NewVBackend(8, true)
@@ -348,7 +351,7 @@ func c45Case(t *testing.T, rec *kit.Rec, ci int, be *kit.VBackend, repo *reposit
 	if ci%2 == 1 {
 		format = "zip"
 	}
-	g := &c45Gen{rng: rng, utf8: format == "zip" || rng.Chance(2, 3)}
+	g := &c45Gen{rng: rng, utf8: format == "zip" || rng.Chance(2, 3), big: rec.Env.Pick(70000, 300000)}
 	root := g.dir("", 0, true)
 	switch ci % 10 { // fixed shapes first: special files directly inside the dumped directory and nested
 	case 0, 1:
